@@ -9,7 +9,7 @@ from ..cfg import cfg_of
 from ..atoms import Atomizer, FlagTracker, must_facts
 from ..lockset import call_sites
 from .. import astutil as A
-from .common_node import ready_constants
+from .common_node import ready_constants, identity_semantics, route_lists_not_aliased
 
 TECHNIQUE = "def-use and filter-shape analysis of route_request; CFG ordering (waiter registered " \
             "before send, removed in finally); delivery def-use in _receive_app_answer"
@@ -46,6 +46,8 @@ def run(ctx: Ctx):
     args = [a.arg for a in f.node.args.args]
     app, msg = args[1], args[2]
     ready_constants(ctx, "C10-R0")
+    identity_semantics(ctx, "C10-R0b")
+    route_lists_not_aliased(ctx, "C10-R0c")
 
     # ---------------- R1 candidate list ------------------------------------------------
     ctx.rule("C10-R1", "candidate peers = route entry of (realm, application), '_default' only "
@@ -165,6 +167,20 @@ def run(ctx: Ctx):
     ctx.inst(cons)
     if len(single) != 1 or model.try_fold(single[0].ast.value.slice, f.module) not in (0, -1):
         ctx.fail(cons, f.loc(), "when one peer is usable it is not the one selected (`usable[0]`)")
+    cons = "route_request:selected-peer-defs"
+    ctx.inst(cons)
+    if pvar is not None:
+        for n in g.nodes:
+            if n.kind in ("stmt", "iter", "handler", "with") and n not in sel and n not in single \
+                    and n.ast is not None and not isinstance(n.ast, (ast.ListComp, ast.GeneratorExp)):
+                tg = [A.dotted(t) for t in (A.store_targets(n.ast) if isinstance(
+                    n.ast, (ast.Assign, ast.AugAssign, ast.AnnAssign, ast.For)) else [])]
+                if pvar in tg:
+                    ctx.fail(cons, g.loc(n), f"the selected peer is also taken from "
+                             f"`{ast.unparse(n.ast)[:80]}`, which is neither the callback's choice "
+                             f"among the usable peers nor the only usable peer: a peer that is not "
+                             f"ready (or not configured for the application) can be sent to")
+                    break
     conn_defs = [n for n in g.nodes if n.kind == "stmt" and isinstance(n.ast, ast.Assign)
                  and ast.unparse(n.ast.value) == f"{pvar}.connection"]
     cons = "route_request:selected-connection"
